@@ -251,6 +251,9 @@ func c18Oracle(c c18Case) error {
 	if err := c18Merged(snap); err != nil {
 		return err
 	}
+	if err := c18Creators(snap); err != nil {
+		return err
+	}
 	if c.L.ambiguous(base, ts) {
 		st.class("ambiguous_layout_validity_only", 1)
 		return nil
@@ -308,6 +311,33 @@ func c18Merged(snap *stack.Snapshot) error {
 				return fmt.Errorf("bucket %v, frame %d (%s): the merged bucket shows local=%q rel=%q import=%q location=%s, its members local=%q rel=%q import=%q location=%s",
 					b.IDs, i, x.RemoteSrcPath, x.LocalSrcPath, x.RelSrcPath, x.ImportPath, x.Location, y.LocalSrcPath, y.RelSrcPath, y.ImportPath, y.Location)
 			}
+		}
+	}
+	return nil
+}
+
+// c18Creators: a creation frame is a frame: it names a file, and the file resolves the same way
+// wherever the snapshot mentions it (the dumps give a third of the goroutines a creator in the
+// file of their first frame).
+func c18Creators(snap *stack.Snapshot) error {
+	byFile := map[string]*stack.Call{}
+	for _, g := range snap.Goroutines {
+		for i := range g.Stack.Calls {
+			byFile[g.Stack.Calls[i].RemoteSrcPath] = &g.Stack.Calls[i]
+		}
+	}
+	for _, g := range snap.Goroutines {
+		for i := range g.CreatedBy.Calls {
+			x := &g.CreatedBy.Calls[i]
+			y := byFile[x.RemoteSrcPath]
+			if y == nil {
+				continue
+			}
+			if x.LocalSrcPath != y.LocalSrcPath || x.RelSrcPath != y.RelSrcPath || x.Location != y.Location {
+				return fmt.Errorf("goroutine %d: creation frame in %s: local=%q rel=%q location=%s, but a stack frame in the same file has local=%q rel=%q location=%s",
+					g.ID, x.RemoteSrcPath, x.LocalSrcPath, x.RelSrcPath, x.Location, y.LocalSrcPath, y.RelSrcPath, y.Location)
+			}
+			statsFor("C18").class("creation_frames_compared_with_a_stack_frame_of_the_same_file", 1)
 		}
 	}
 	return nil
